@@ -89,6 +89,38 @@ CLAIMS = {
 
 NOT_YET = {}
 
+ENGINE = {}
+for r in "I0 I1 I2 I3 G1 G2 G3 G4 G5".split(): ENGINE[r] = "abstract interpretation of the IR-emitting compilers (Go-level path enumeration, emitted-IR control flow)"
+for r in "A1 A5 A6 A7 A8 A9 B1 K6 K10 W8 S13 S16 S2b P1 A2".split(): ENGINE[r] = "dataflow / abstract interpretation over the emitted x86 templates (helpers inlined under constant bindings)"
+for r in "E1 E4 E6 L1 L2 L3 O1 O2 D2 B2 N1".split(): ENGINE[r] = "go/cfg dataflow (locksets, pool typestate with alias tokens, must-use, bounds facts)"
+for r in "O6 O7 A4".split(): ENGINE[r] = "Go-level path enumeration (definite assignment, check-before-use on every path)"
+ENGINE["R9"] = "go/ssa + VTA call graph, strongly connected components, structural depth-guard check"
+ENGINE["S11"] = "decision-sequence comparison with the standard library sources in GOROOT"
+
+def rules_of():
+    out = {}
+    try:
+        txt = subprocess.check_output(['/verif/bin/sonicsa', '-list'], stderr=subprocess.DEVNULL).decode()
+    except Exception:
+        return out
+    for l in txt.splitlines():
+        if len(l) > 4 and l[0] == 'C' and l[3] == ':':
+            out[l[:3]] = l[4:].split()
+    return out
+RULES = rules_of()
+
+def technique(pid, tech):
+    rs = RULES.get(pid, [])
+    engines = []
+    for r in rs:
+        e = ENGINE.get(r, "AST + go/types table, sibling-agreement and constant-relation rules")
+        if e not in engines:
+            engines.append(e)
+    t = "static analysis: " + tech
+    if rs:
+        t += " || engines: " + "; ".join(engines) + " || rules: " + " ".join(sorted(rs))
+    return t
+
 def main():
     props = [json.loads(l) for l in open('/verif/properties.jsonl')]
     checks = []
@@ -106,7 +138,7 @@ def main():
                 "engine": "sonicsa",
                 "level_claimed": {"category": "other", "text": text, "design_ref": ref},
                 "level_note": note,
-                "technique": "static analysis: " + tech,
+                "technique": technique(pid, tech),
             })
         else:
             na.append({"property_id": pid, "reason": NOT_YET.get(pid, "static rules for this property are designed (DESIGN.md §4) but not built yet in this round; nothing is claimed until the checker exists")})
